@@ -34,7 +34,7 @@ PROPS = {
     'C11': dict(streams=[('scaleb', G.gen_scaleb, 100000, 2000000), ('logb', G.gen_logb, 40000, 400000)]),
     'C12': dict(streams=[('nan', G.gen_nan, 120000, 1500000), ('invalid', G.gen_invalid_sources, 20000, 200000)]),
     'C13': dict(streams=[('class', G.gen_class, 60000, 600000), ('noncanon', G.gen_noncanon_ops, 80000, 1000000), ('consts', G.gen_consts, 5000, 50000)]),
-    'C14': dict(streams=[('status', G.gen_all_ops_status, 150000, 3000000)], cross_entry=True),
+    'C14': dict(streams=[('status', G.gen_all_ops_status, 240000, 3000000)], cross_entry=True),
     'C15': dict(streams=[('sweep', G.gen_c15, 400000, 6000000), ('strings', G.gen_parse, 100000, 1500000)], panic_only=True, api_registry=True, level='other',
                 explanation='partial: exploration of every public entry point under catch_unwind (debug-assertion and release builds) plus an API registry check; absence of panics in the Rust code is not proved (the model does not transcribe it)'),
     'C16': dict(streams=[('minmax', G.gen_minmax, 120000, 2000000)]),
@@ -60,5 +60,8 @@ LAYER_I = {'C13': ('A,C', ['bid128_is_signed', 'bid128_is_nan', 'bid128_is_inf',
                            'bid128_is_normal', 'bid128_is_subnormal', 'bid128_class']),
            'C12': ('A', ['bid128_copy', 'bid128_negate', 'bid128_abs', 'bid128_copy_sign']),
            'C09': ('A,B', ['bid128_same_quantum', 'bid128_quantexp', 'bid128_llquantexp', 'bid128_quantum']),
-           'C06': ('B', ['bid128_from_int32', 'bid128_from_uint32', 'bid128_from_int64', 'bid128_from_uint64'])}
+           'C06': ('B', ['bid128_from_int32', 'bid128_from_uint32', 'bid128_from_int64', 'bid128_from_uint64']),
+           'C18': ('D', ['bid128_total_order', 'bid128_total_order_mag']),
+           'C11': ('D', ['bid128_scalbln']),
+           'C19': ('E', ['bid_to_dpd128', 'bid_dpd_to_bid128'])}
 for _k, _v in LAYER_I.items(): PROPS[_k]['layerI'] = _v
